@@ -52,6 +52,7 @@ CLASSES = {
     'sleep-loop': ("import time\nwhile True:\n    time.sleep(1)\n", 'run'),
     'slow-finishing': (None, 'run'),
     'import-loop': ("import helper\nprint('never')\n", 'run'),
+    'swallow-once-then-finish': ("x = 0\ntry:\n    while True:\n        x += 1\nexcept BaseException:\n    x = -1\ny = x + 1\n", 'run'),
     'call-spin': ("def spin(n):\n    print('spinning')\n    while True:\n        n += 1\n", 'call'),
     'eval-spin': ("def spin(n):\n    while True:\n        n += 1\n", 'evaluate'),
 }
@@ -179,6 +180,7 @@ def run_spec(spec):
 ZOMBIE_KIND = {
     'busy': 'mortal-silent', 'busy-pass': 'mortal-silent', 'sleep-loop': 'mortal-silent', 'import-loop': 'mortal-silent',
     'call-spin': 'mortal-silent', 'eval-spin': 'mortal-silent', 'slow-finishing': 'mortal-silent',
+    'swallow-once-then-finish': 'mortal-silent',
     'print-loop': 'mortal-printing', 'finally-print': 'mortal-printing', 'input-loop': 'mortal-reading',
     'swallow': 'immortal-silent', 'swallow-print': 'immortal-printing', 'swallow-input': 'immortal-reading',
     'blocked-event': 'blocked', 'blocked-lock': 'blocked',
@@ -309,6 +311,15 @@ def judge(spec, res, k=None):
             viol('T4-later-execution-altered', v['detail'], '/' + v['sig'].split('/')[1])
         if sub:
             return vs
+        cl = o.get('ctx_lookup')
+        if cl is not None and not o.get('skipped'):
+            if cl.get('error'):
+                viol('T4-later-result-has-no-execution-record', 'op %d: looking up the execution behind the returned value raised %s' % (i, cl['error']))
+                return vs
+            if not cl.get('is_newest') or (op['op'] == 'call' and cl.get('called') != op['fn']):
+                viol('T4-later-result-points-to-another-execution', 'op %d (%s): the returned value is attributed to %r' % (
+                    i, op.get('fn') or op.get('expr'), cl))
+                return vs
         ctxs = o.get('new_contexts') or []
         if ctxs and o.get('raw_delta') is not None and o['raw_delta'] != ctxs[-1]['output']:
             viol('T4-later-output-altered', 'op %d: raw_output grew by %r but the execution wrote %r' % (
